@@ -118,6 +118,8 @@ pub fn hash_record(stats: &[(&str, Option<Value>)], draws: &[(&str, Option<Value
 #[derive(Clone, Default)]
 pub struct RecConfig {
     pub storage_faults: Vec<(u64, u64)>,
+    /// every record takes this long (the chain holds its trace lock meanwhile; C10: snapshots taken while chains record)
+    pub rec_delay_us: u64,
 }
 pub struct RecTrace {
     cfg: RecConfig,
@@ -184,6 +186,9 @@ impl ChainStorage for RecChain {
         let k = self.log.len() as u64;
         if self.cfg.storage_faults.contains(&(self.chain, k)) {
             anyhow::bail!("injected storage failure for chain {} at draw {}", self.chain, k);
+        }
+        if self.cfg.rec_delay_us > 0 {
+            std::thread::sleep(Duration::from_micros(self.cfg.rec_delay_us));
         }
         self.log.push(hash_record(&stats, &draws));
         Ok(())
@@ -432,7 +437,7 @@ fn run_one<S: Settings>(sc: &J) -> Vec<J> {
     verif::install_global_sink(&["sampler"]);
     uemit(json!({"ev": "u_new", "chains": nchains, "cores": num_cores, "draws": total}));
     let model = mk_model();
-    let rec_cfg = RecConfig { storage_faults: storage_faults.clone() };
+    let rec_cfg = RecConfig { storage_faults: storage_faults.clone(), rec_delay_us: sc["rec_delay_us"].as_u64().unwrap_or(0) };
     let created = std::panic::catch_unwind(std::panic::AssertUnwindSafe(|| {
         // optional progress callback (runs on the controller thread between commands)
         let callback = sc["cb_rate_us"].as_u64().map(|us| nuts_rs::ProgressCallback {
